@@ -30,6 +30,7 @@ Apply(e) ==
       [] e.ev = "tick"     -> PTick(e.d)
       [] e.ev = "bo"       -> PBo(e.op)
       [] e.ev = "teardown" -> PTeardown
+      [] e.ev = "cstate"   -> PCState(SeqToSet(e.live), SeqToSet(e.active))
       [] e.ev = "quiet"    -> PQuiet(SeqToSet(e.live), SeqToSet(e.active), SeqToSet(e.blk), e.gstate)
       [] e.ev \in {"leak", "note", "end", "spin", "panic"} -> UNCHANGED pvars
       [] OTHER             -> bad' = bad \cup {"Unexplained"} /\ UNCHANGED <<cfg, clk, now, pctx, prt, epoch, inst, calls, snapw, chs, credit, creditR, needEnter, ctxTouch, status, cbseen, boReset, boStop, td>>
